@@ -14,7 +14,8 @@
 (*                                                                         *)
 (* Ghost state (computed here, not logged): the remaining limits of every   *)
 (* pool.  The limits Karpenter itself believes to have left (limitsLeft of  *)
-(* the open event) are only compared for a Drift note.  Fid_* entries are   *)
+(* the open event) are only compared for an Obs_ note - that figure is      *)
+(* Karpenter's, the verdict uses the spec's own account.  Fid_* entries are   *)
 (* the FIDELITY comparison of FeasibleFresh with the real code in both      *)
 (* directions (never a verdict; the check reports and counts them).         *)
 (***************************************************************************)
@@ -41,7 +42,7 @@ TCfg == /\ Ev.e = "Cfg" /\ cfg' = Ev /\ ntr' = ntr + 1
         /\ UNCHANGED <<viol, cases>>
 
 \* ---- Sched open
-Exact(e) == ExactScenario(cfg) /\ ExactPod(e)
+Exact(e) == ExactScenario(cfg) /\ ExactPod(cfg, e)
 OpenChecks(e) ==
     IF ~Exact(e) THEN <<>>
     ELSE Chk(G_C19_HighestWeightFeasible(cfg, e, Ev.pool, st.left), "G_C19_HighestWeightFeasible", SigHighest(cfg, e, Ev.pool, st.left))
@@ -68,7 +69,7 @@ TOpen ==
            after == IF known THEN ChargeOpen(cfg, st.left[Ev.pool], Ev.its) ELSE <<>>
            higher == known /\ \E q \in Range(cfg.pools) : q.weight > PoolByName(cfg, Ev.pool).weight
            fallback == known /\ \E q \in Range(cfg.pools) : q.weight > PoolByName(cfg, Ev.pool).weight /\ PoolUsable(q)
-       IN /\ viol' = viol \o OpenChecks(e) \o (IF known THEN Chk(LeftDrift(Ev.pool, after), "Drift_C19_Left", "limits-left") ELSE <<>>)
+       IN /\ viol' = viol \o OpenChecks(e) \o (IF known THEN Chk(LeftDrift(Ev.pool, after), "Obs_C19_LimitsLeft", "code-and-spec-disagree-on-limits-left") ELSE <<>>)
           /\ st' = [st EXCEPT !.left = IF known THEN [st.left EXCEPT ![Ev.pool] = after] ELSE st.left,
                               !.opens = @ + 1, !.hook = TRUE,
                               !.guarded = @ + (IF Exact(e) /\ higher THEN 1 ELSE 0),
